@@ -228,7 +228,9 @@ def r13_2(chk):
                     bad = None
                     if isinstance(c, ast.Call) and isinstance(c.func, ast.Attribute):
                         a = c.func.attr
-                        if a in ("endswith", "startswith") and c.args and is_id(c.args[0]) and not const(c.args[0]):
+                        if a == "endswith" and c.args and is_id(c.func.value) and any(isinstance(x, ast.Attribute) and x.attr == "suffix" for x in ast.walk(c.args[0])) and not (isinstance(c.args[0], ast.JoinedStr) and c.args[0].values and isinstance(c.args[0].values[0], ast.Constant) and str(c.args[0].values[0].value).startswith(".")) and not (isinstance(c.args[0], ast.BinOp) and isinstance(c.args[0].left, ast.Constant) and str(c.args[0].left.value).startswith(".")):
+                            bad = f"`{norm(c)}` tests for the store's suffix without the dot that separates it from the name: an identifier whose last letters spell the suffix ('lfa' for suffix 'fa') is taken to carry it already, so membership and the append-mode overwrite check look for the wrong record"
+                        elif a in ("endswith", "startswith") and c.args and is_id(c.args[0]) and not const(c.args[0]):
                             bad = f"`{norm(c)}` matches an identifier as a {'suffix' if a == 'endswith' else 'prefix'} of another: records whose id merely ends/starts with it are hit too"
                         elif a == "replace" and len(c.args) == 2 and is_id(c.func.value) and not const(c.args[0]) and not isinstance(c.func.value, ast.Call):
                             bad = f"`{norm(c)}` edits every occurrence of a run-time fragment inside the identifier, not only the trailing suffix"
